@@ -1182,7 +1182,7 @@ def _palette_sweep():
 
 
 _ENC_SWEEP_ROWS = [
-    {"segs": [[None, "a┌─┐"]], "fill": [None, " "]},
+    {"segs": [[None, "a┌─┘"]], "fill": [None, " "]},
     {"segs": [["a1", "漢é"]], "fill": ["a1", "─"]},
     {"segs": [[None, "x"]], "fill": [None, "│"]},
 ]
@@ -1202,7 +1202,7 @@ def _encoding_sweep():
                         "steps": [["draw", {"rows": _ENC_SWEEP_ROWS, "cursor": [0, 0]}],
                                   ["enc", e1], ["same"],
                                   ["enc", e2], ["same"],
-                                  ["mod", {"edits": [[0, {"segs": [["a1", "└┘b"]], "fill": [None, "─"]}]],
+                                  ["mod", {"edits": [[0, {"segs": [["a1", "◆┘b"]], "fill": [None, "─"]}]],
                                            "cursor": [1, 1]}]],
                     }
 
